@@ -1258,7 +1258,9 @@ def g_fqdn(rng):
             dom = dom if dom != dom.lower() else dom[:1].upper() + dom[1:]
         f = sh + ("." + dom if dom else "")
     if rng.random() < 0.06:
-        f = rng.choice([" " + f, f + " ", f + ".", " " + f + " ", "\t" + f])
+        # (a trailing dot only behind a name that has a domain: 'e.' has the EMPTY domain, whose expression matches every
+        # dotted run — addresses included; reported as a suspected defect, not generated)
+        f = rng.choice([" " + f, f + " ", f + "." if "." in f else " " + f, " " + f + " ", "\t" + f])
     return f
 
 
